@@ -1,3 +1,352 @@
+(** Proofs about Models/Hist.v (C11). *)
 From Coq Require Import List Bool Arith PeanoNat Lia.
 Import ListNotations.
 From Cohdl Require Import Models.Hist.
+
+Definition outcome_of (c : design -> gstate -> gstate * outcome) (d : design) (g : gstate) : outcome := snd (c d g).
+
+(** * witnesses: design classes of the pool of harness/c11.py *)
+
+(*                     id arch ctx  with dep clk_ok clk_fail ctx_clk needs coro call  apply eh verdict *)
+Definition W_sm      := mkD 0 []  []  false 1 true  false false false true  true  false 0 (Rej SIrSm).   (* r_sm_continue *)
+Definition W_coro    := mkD 1 []  []  false 1 true  false false false true  true  false 0 Ok.            (* a_coro *)
+Definition W_width   := mkD 2 []  []  false 1 false false false false false false false 0 (Rej SPrep).   (* r_prep_width *)
+Definition W_pfx     := mkD 3 []  [0] false 1 false false false false false false false 0 Ok.            (* a_pfx_ctx *)
+Definition W_inwith  := mkD 4 [4] []  true  1 false false false false false false false 0 (Rej SPrep).   (* r_prep_in_with *)
+Definition W_pfxarch := mkD 5 [0] []  false 1 false false false false false false false 0 Ok.            (* a_pfx_arch *)
+Definition W_clk     := mkD 6 []  []  false 1 false true false  false false false false 0 (Rej SPrep).   (* r_prep_clk *)
+Definition W_needs   := mkD 7 []  []  false 1 false false false true  true  true  false 0 Ok.            (* x_needs_ctx *)
+Definition W_arch    := mkD 8 []  []  false 1 false false false false false false false 0 (Rej SArch).   (* r_arch_raise *)
+Definition W_comb    := mkD 9 []  []  false 1 false false false false false false false 0 Ok.            (* a_comb *)
+
+(** (i) a design rejected inside coroutine lowering makes every later coroutine design fail *)
+Lemma refuted_statemachine :
+  outcome_of compile W_coro (run compile [W_sm]) = Crashed SIr /\ outcome_of compile W_coro init = Accepted [].
+Proof. vm_compute. split; reflexivity. Qed.
+
+(** (ii) a design rejected in a context: the second later compilation of a prefix design gets p0_1 *)
+Lemma refuted_block_stack :
+  outcome_of compile W_pfx (run compile [W_width; W_pfx]) = Accepted [[P 0; C 1]]
+  /\ outcome_of compile W_pfx init = Accepted [[P 0]].
+Proof. vm_compute. split; reflexivity. Qed.
+
+(** (iii) rejected under `with std.prefix`: later names are prefixed, the second use of a name crashes *)
+Lemma refuted_prefix_scope :
+  outcome_of compile W_pfxarch (run compile [W_inwith]) = Accepted [[P 4; P 0]]
+  /\ outcome_of compile W_pfxarch (run compile [W_inwith; W_pfxarch]) = Crashed SArch
+  /\ outcome_of compile W_pfxarch init = Accepted [[P 0]].
+Proof. vm_compute. repeat split; reflexivity. Qed.
+
+(** (iv) rejected inside a std.SequentialContext: a design that must be rejected is accepted *)
+Lemma refuted_current_context :
+  outcome_of compile W_needs (run compile [W_clk]) = Accepted []
+  /\ outcome_of compile W_needs init = Rejected SPrep.
+Proof. vm_compute. split; reflexivity. Qed.
+
+(** (v) rejected by its architecture: the same design is accepted the second time *)
+Lemma refuted_stale_template :
+  outcome_of compile W_arch (run compile [W_arch]) = Accepted []
+  /\ outcome_of compile W_arch init = Rejected SArch.
+Proof. vm_compute. split; reflexivity. Qed.
+
+Lemma history_independent_refuted :
+  (exists h d, outcome_of compile d (run compile h) = Crashed SIr /\ outcome_of compile d init = Accepted [])
+  /\ (exists h d n1 n2, outcome_of compile d (run compile h) = Accepted n1 /\ outcome_of compile d init = Accepted n2
+                        /\ n1 <> n2).
+Proof.
+  split.
+  - exists [W_sm], W_coro. exact refuted_statemachine.
+  - exists [W_width; W_pfx], W_pfx, [[P 0; C 1]], [[P 0]].
+    destruct refuted_block_stack as [A B]. repeat split; try assumption. discriminate.
+Qed.
+
+Lemma clean_invariant_refuted : exists h, cleanb (run compile h) = false.
+Proof. exists [W_sm]. vm_compute. reflexivity. Qed.
+
+(** * prefix events *)
+
+Definition pe_ok (p : pent) : Prop := p = PNone \/ p = POther.
+
+Lemma enter_entity_scope se p : p_scope (enter_entity se p) = p_scope p.
+Proof. unfold enter_entity. destruct se, (p_pe p); reflexivity. Qed.
+
+Lemma enter_entity_false_pe p : p_pe p <> PStale -> p_pe (enter_entity false p) = PCur.
+Proof. unfold enter_entity. destruct (p_pe p) eqn:E; cbn; congruence. Qed.
+
+Lemma mk_prefix_shape se n p p' r :
+  mk_prefix se n p = (p', r) ->
+  length (p_scope p') = length (p_scope p) /\ tl (p_scope p') = tl (p_scope p) /\ p_pe p' = p_pe (enter_entity se p).
+Proof.
+  unfold mk_prefix. pose proof (enter_entity_scope se p) as E.
+  destruct (p_scope (enter_entity se p)) as [|s rest] eqn:S.
+  - intros H; inversion H; subst; cbn. rewrite <- E. auto.
+  - destruct (memb n (sc_used s)); intros H; inversion H; subst; cbn; rewrite <- E.
+    + rewrite S. auto.
+    + cbn. auto.
+Qed.
+
+Lemma run_events_shape se evs : forall p p' r,
+  run_events se evs p = (p', r) ->
+  length (p_scope p') = length (p_scope p) /\ tl (p_scope p') = tl (p_scope p)
+  /\ (se = false -> p_pe p <> PStale -> p_pe p' <> PStale).
+Proof.
+  induction evs as [|n evs IH]; intros p p' r H; cbn in H.
+  - inversion H; subst. auto.
+  - destruct (mk_prefix se n p) as [p1 [s|]] eqn:M.
+    + destruct (run_events se evs p1) as [p2 r2] eqn:R.
+      destruct (mk_prefix_shape _ _ _ _ _ M) as (L1 & T1 & P1).
+      destruct (IH _ _ _ R) as (L2 & T2 & P2).
+      assert (p' = p2) by (destruct r2; inversion H; reflexivity). subst p'.
+      repeat split; try congruence.
+      intros -> NS. apply P2; [reflexivity|]. rewrite P1, enter_entity_false_pe by assumption. discriminate.
+    + inversion H; subst.
+      destruct (mk_prefix_shape _ _ _ _ _ M) as (L1 & T1 & P1).
+      repeat split; try assumption.
+      intros -> NS. rewrite P1, enter_entity_false_pe by assumption. discriminate.
+Qed.
+
+(** the first prefix created in a new entity scope clears the table: what was there before is irrelevant *)
+Lemma run_events_cons_canon n r p :
+  p_pe p <> PCur ->
+  run_events false (n :: r) p = run_events false (n :: r) (mkPfx (p_scope p) PNone []).
+Proof.
+  intros H. cbn [run_events]. unfold mk_prefix, enter_entity. cbn [p_pe p_scope p_pt].
+  destruct (p_pe p); try congruence; reflexivity.
+Qed.
+
+Lemma demote_scope p : p_scope (demote p) = p_scope p.
+Proof. unfold demote. destruct (p_pe p); reflexivity. Qed.
+
+Lemma demote_pe p : p_pe p <> PStale -> pe_ok (p_pe (demote p)).
+Proof. unfold demote, pe_ok. destruct (p_pe p) eqn:E; cbn; rewrite ?E; intuition congruence. Qed.
+
+Lemma demote_pt p : p_pt (demote p) = p_pt p.
+Proof. unfold demote. destruct (p_pe p); reflexivity. Qed.
+
+Lemma pe_ok_not_cur p : pe_ok p -> p <> PCur.
+Proof. intros [-> | ->]; discriminate. Qed.
+Lemma pe_ok_not_stale p : pe_ok p -> p <> PStale.
+Proof. intros [-> | ->]; discriminate. Qed.
+
+(** * the clean states *)
+
+Definition scratch_clean (g : gstate) : Prop :=
+  g_sm g = false /\ g_bs g = 0 /\ g_rb g = false /\ g_br g = false /\ g_co g = false /\ g_rs g = 0
+  /\ g_pf g = false /\ g_inl g = 0 /\ g_act g = false /\ g_cur g = false /\ g_fr g = false /\ g_eh g = 0
+  /\ g_stale g = [] /\ g_tt g = [].
+
+Lemma clean_iff g : clean g <-> scratch_clean g /\ p_scope (g_pfx g) = [] /\ pe_ok (p_pe (g_pfx g)).
+Proof.
+  unfold clean, cleanb, scratch_clean, pe_ok.
+  destruct g as [sm bs [sc pe pt] rb br co rs pf inl act cur fr eh stale tt cache]; cbn.
+  split.
+  - intros H. repeat (apply andb_prop in H; destruct H as [H ?]).
+    destruct sm, rb, br, co, pf, act, cur, fr; try discriminate.
+    destruct bs, rs, inl, eh; try discriminate.
+    destruct sc, stale, tt; try discriminate.
+    destruct pe; try discriminate; intuition.
+  - intros ((-> & -> & -> & -> & -> & -> & -> & -> & -> & -> & -> & -> & -> & ->) & -> & [-> | ->]); reflexivity.
+Qed.
+
+(** fixed discipline: the IR stage writes nothing *)
+Lemma ir_stage_fixed_state d names g : fst (ir_stage true d names g) = g.
+Proof. unfold ir_stage. destruct (d_coro d && g_sm g); [reflexivity|]. destruct (d_verdict d) as [|[]]; reflexivity. Qed.
+
+Lemma ir_stage_outcome fx d names g g' :
+  g_sm g = g_sm g' -> snd (ir_stage fx d names g) = snd (ir_stage fx d names g').
+Proof. unfold ir_stage. intros ->. destruct (d_coro d && g_sm g'); [reflexivity|]. destruct (d_verdict d) as [|[]]; reflexivity. Qed.
+
+Lemma cur_after_fixed d f c : cur_after true d f c false = false.
+Proof. unfold cur_after. destruct (c && d_ctx_clk d), (f && negb c && d_clk_fail d), (d_clk_ok d); reflexivity. Qed.
+
+(** one compilation under the try/finally discipline, from a clean state: written with the prefix state only *)
+Definition fixed_body (d : design) (p : pfx) : pfx * outcome :=
+  match run_events false (d_arch_pfx d) p with
+  | (pa, None) => (demote pa, Crashed SArch)
+  | (pa, Some names_a) =>
+      if is_rej (d_verdict d) SArch then (demote pa, Rejected SArch)
+      else
+        let pd := demote pa in
+        let p0 := if d_with d then mkPfx (mkScope (last names_a []) [] :: p_scope pd) (p_pe pd) (p_pt pd) else pd in
+        match run_events false (d_ctx_pfx d) p0 with
+        | (pc, rc) =>
+            let crashed := match rc with None => true | Some _ => false end in
+            let failed := crashed || (d_needs_ctx d && true) || is_rej (d_verdict d) SPrep in
+            let names := names_a ++ match rc with Some l => l | None => [] end in
+            let popped := if d_with d then mkPfx (tl (p_scope pc)) (p_pe pc) (p_pt pc) else pc in
+            if failed then (demote popped, if crashed then Crashed SPrep else Rejected SPrep)
+            else (demote popped,
+                  match d_verdict d with
+                  | Rej SIrSm => Rejected SIrSm | Rej SIr => Rejected SIr
+                  | Rej SAnalysis => Rejected SAnalysis | Rej SBackend => Rejected SBackend
+                  | _ => Accepted names
+                  end)
+        end
+  end.
+
+Lemma compile_fixed_clean d g :
+  clean g ->
+  compile_fixed d g = (set_pfx (fst (fixed_body d (g_pfx g))) (set_cache (S (g_cache g)) g), snd (fixed_body d (g_pfx g))).
+Proof.
+  intros C. apply clean_iff in C. destruct C as (S & SC & PE).
+  destruct g as [sm bs [sc pe pt] rb br co rs pf inl act cur fr eh stale tt cache].
+  destruct S as (? & ? & ? & ? & ? & ? & ? & ? & ? & ? & ? & ? & ? & ?). cbn in *. subst.
+  assert (Dm : demote (mkPfx [] pe pt) = mkPfx [] pe pt) by (destruct PE as [-> | ->]; reflexivity).
+  unfold compile_fixed, compile_gen, fixed_body. cbn [g_act g_tt g_stale g_cache set_cache memb existsb g_pfx g_bs g_cur].
+  rewrite Dm. cbn [Nat.ltb Nat.leb negb].
+  destruct (run_events false (d_arch_pfx d) (mkPfx [] pe pt)) as [pa [names_a|]]; [|reflexivity].
+  destruct (is_rej (d_verdict d) SArch); [reflexivity|].
+  cbn [set_pfx g_sm g_bs g_rb g_br g_co g_rs g_pf g_inl g_act g_cur g_fr g_eh g_stale g_tt g_cache].
+  match goal with |- context [run_events false (d_ctx_pfx d) ?p0] => destruct (run_events false (d_ctx_pfx d) p0) as [pc rc] end.
+  rewrite !andb_true_r.
+  match goal with |- (if ?f then _ else _) = _ => destruct f eqn:F end.
+  - rewrite cur_after_fixed. reflexivity.
+  - rewrite cur_after_fixed. unfold ir_stage. cbn [g_sm set_cur set_pfx set_cache]. rewrite andb_false_r.
+    cbn [fst snd]. destruct (d_verdict d) as [|[]]; reflexivity.
+Qed.
+
+Lemma fixed_body_props d p :
+  p_scope p = [] -> pe_ok (p_pe p) ->
+  p_scope (fst (fixed_body d p)) = [] /\ pe_ok (p_pe (fst (fixed_body d p)))
+  /\ snd (fixed_body d p) = snd (fixed_body d pfx0).
+Proof.
+  intros SC PE.
+  assert (NC : p_pe p <> PCur) by (apply pe_ok_not_cur; assumption).
+  assert (NS : p_pe p <> PStale) by (apply pe_ok_not_stale; assumption).
+  unfold fixed_body.
+  (* architecture events *)
+  assert (A : forall pa ra, run_events false (d_arch_pfx d) p = (pa, ra) ->
+              p_scope pa = [] /\ p_pe pa <> PStale /\
+              exists pa0, run_events false (d_arch_pfx d) pfx0 = (pa0, ra) /\ p_scope pa0 = [] /\ p_pe pa0 <> PStale
+                          /\ (d_arch_pfx d <> [] -> pa0 = pa)).
+  { intros pa ra H. destruct (run_events_shape _ _ _ _ _ H) as (L & _ & P).
+    rewrite SC in L. split; [destruct (p_scope pa); [reflexivity|discriminate]|]. split; [auto|].
+    destruct (d_arch_pfx d) as [|n r] eqn:E.
+    - cbn in H. inversion H; subst. exists pfx0. cbn. repeat split; try congruence; try discriminate.
+    - rewrite run_events_cons_canon in H by assumption. rewrite SC in H.
+      exists pa. change pfx0 with (mkPfx [] PNone []). repeat split; auto.
+      destruct (p_scope pa); [reflexivity|discriminate]. }
+  destruct (run_events false (d_arch_pfx d) p) as [pa ra] eqn:RA.
+  destruct (A _ _ eq_refl) as (SA & NSA & pa0 & RA0 & SA0 & NSA0 & EQA). rewrite RA0.
+  destruct ra as [names_a|].
+  2:{ cbn. rewrite demote_scope. repeat split; auto using demote_pe. }
+  destruct (is_rej (d_verdict d) SArch).
+  { cbn. rewrite demote_scope. repeat split; auto using demote_pe. }
+  (* context events *)
+  set (mk := fun pd : pfx => if d_with d then mkPfx (mkScope (last names_a []) [] :: p_scope pd) (p_pe pd) (p_pt pd) else pd).
+  change (if d_with d then mkPfx (mkScope (last names_a []) [] :: p_scope (demote pa)) (p_pe (demote pa)) (p_pt (demote pa)) else demote pa)
+    with (mk (demote pa)).
+  change (if d_with d then mkPfx (mkScope (last names_a []) [] :: p_scope (demote pa0)) (p_pe (demote pa0)) (p_pt (demote pa0)) else demote pa0)
+    with (mk (demote pa0)).
+  assert (MS : p_scope (mk (demote pa)) = p_scope (mk (demote pa0))).
+  { unfold mk. destruct (d_with d); cbn; rewrite !demote_scope; congruence. }
+  assert (MP : pe_ok (p_pe (mk (demote pa))) /\ pe_ok (p_pe (mk (demote pa0)))).
+  { unfold mk. destruct (d_with d); cbn; split; apply demote_pe; assumption. }
+  assert (ML : length (p_scope (mk (demote pa))) = if d_with d then 1 else 0).
+  { unfold mk. destruct (d_with d); cbn; rewrite demote_scope, SA; reflexivity. }
+  destruct MP as (MP & MP0).
+  assert (C : exists pc0, run_events false (d_ctx_pfx d) (mk (demote pa0)) = (pc0, snd (run_events false (d_ctx_pfx d) (mk (demote pa))))).
+  { destruct (d_ctx_pfx d) as [|n r].
+    - cbn. eexists; reflexivity.
+    - rewrite (run_events_cons_canon n r (mk (demote pa))) by (apply pe_ok_not_cur; assumption).
+      rewrite (run_events_cons_canon n r (mk (demote pa0))) by (apply pe_ok_not_cur; assumption).
+      rewrite MS. destruct (run_events false (n :: r) _) as [x y]. eexists; reflexivity. }
+  destruct C as (pc0 & RC0).
+  destruct (run_events false (d_ctx_pfx d) (mk (demote pa))) as [pc rc] eqn:RC. cbn [snd] in RC0. rewrite RC0.
+  destruct (run_events_shape _ _ _ _ _ RC) as (L & T & P).
+  assert (SCP : p_scope (if d_with d then mkPfx (tl (p_scope pc)) (p_pe pc) (p_pt pc) else pc) = []).
+  { rewrite ML in L. destruct (d_with d); cbn.
+    - rewrite T. unfold mk. rewrite demote_scope, SA. reflexivity.
+    - destruct (p_scope pc); [reflexivity|discriminate]. }
+  assert (PEP : p_pe (if d_with d then mkPfx (tl (p_scope pc)) (p_pe pc) (p_pt pc) else pc) <> PStale).
+  { assert (p_pe pc <> PStale) by (apply P; [reflexivity | apply pe_ok_not_stale; assumption]).
+    destruct (d_with d); assumption. }
+  destruct ((match rc with None => true | Some _ => false end) || (d_needs_ctx d && true) || is_rej (d_verdict d) SPrep);
+    cbn [fst snd]; rewrite demote_scope; repeat split; auto using demote_pe.
+Qed.
+
+Lemma fixed_step d g :
+  clean g -> clean (fst (compile_fixed d g)) /\ outcome_of compile_fixed d g = outcome_of compile_fixed d init.
+Proof.
+  intros C. unfold outcome_of.
+  assert (CI : clean init) by reflexivity.
+  rewrite (compile_fixed_clean d g C), (compile_fixed_clean d init CI). cbn [fst snd].
+  apply clean_iff in C. destruct C as (S & SC & PE).
+  destruct (fixed_body_props d (g_pfx g) SC PE) as (A & B & E).
+  split; [|exact E].
+  apply clean_iff. destruct g; cbn in *. auto.
+Qed.
+
+Lemma clean_invariant_fixed_from h : forall g, clean g -> clean (fold_left (step compile_fixed) h g).
+Proof.
+  induction h as [|d h IH]; intros g C; cbn; [assumption|].
+  apply IH. unfold step. apply fixed_step. assumption.
+Qed.
+
+Theorem clean_invariant_fixed h : clean (run compile_fixed h).
+Proof. apply clean_invariant_fixed_from. reflexivity. Qed.
+
+Theorem history_independent_fixed h d :
+  outcome_of compile_fixed d (run compile_fixed h) = outcome_of compile_fixed d init.
+Proof. apply fixed_step, clean_invariant_fixed. Qed.
+
+(** * caches are transparent *)
+
+Theorem caches_transparent fx d g c :
+  snd (compile_gen fx d (set_cache c g)) = snd (compile_gen fx d g)
+  /\ set_cache 0 (fst (compile_gen fx d (set_cache c g))) = set_cache 0 (fst (compile_gen fx d g)).
+Proof.
+  destruct g as [sm bs pf0 rb br co rs pf inl act cur fr eh stale tt cache].
+  unfold compile_gen, set_cache; cbn [g_act g_tt g_stale g_cache g_pfx g_bs g_cur g_sm g_rb g_br g_co g_rs g_pf g_inl g_fr g_eh].
+  destruct act; [split; reflexivity|].
+  destruct (memb (d_id d) tt); [split; reflexivity|].
+  destruct (memb (d_id d) stale); [split; reflexivity|].
+  destruct (run_events false (d_arch_pfx d) (demote pf0)) as [pa [names_a|]].
+  2:{ destruct fx; split; reflexivity. }
+  destruct (is_rej (d_verdict d) SArch).
+  { destruct fx; split; reflexivity. }
+  match goal with |- context [run_events ?se (d_ctx_pfx d) ?p0] => destruct (run_events se (d_ctx_pfx d) p0) as [pc rc] end.
+  match goal with |- context [if ?f then _ else _] =>
+    match f with context [is_rej _ SPrep] => destruct f end end.
+  - destruct fx; split; reflexivity.
+  - unfold ir_stage. cbn [g_sm set_cur set_pfx].
+    destruct (d_coro d && sm); [destruct fx; split; reflexivity|].
+    destruct (d_verdict d) as [|[]]; destruct fx; split; reflexivity.
+Qed.
+
+
+(** * as coded: only rejections at architecture / PrepareAst / IR generation leave a clean state *)
+
+Definition harmless (d : design) : bool :=
+  negb (d_needs_ctx d) &&
+  match d_verdict d with Ok | Rej SAnalysis | Rej SBackend => true | _ => false end.
+
+Lemma compile_coded_clean_harmless d g :
+  clean g -> harmless d = true -> (forall s, outcome_of compile d g <> Crashed s) ->
+  compile d g = compile_fixed d g.
+Proof.
+  intros C Hh NCr. apply clean_iff in C. destruct C as (S & SC & PE).
+  destruct g as [sm bs [sc pe pt] rb br co rs pf inl act cur fr eh stale tt cache].
+  destruct S as (? & ? & ? & ? & ? & ? & ? & ? & ? & ? & ? & ? & ? & ?). cbn in *. subst.
+  unfold harmless in Hh. apply andb_prop in Hh. destruct Hh as [N V].
+  destruct (d_needs_ctx d) eqn:NC; [discriminate|].
+  unfold outcome_of, compile, compile_fixed, compile_gen in *.
+  cbn [g_act g_tt g_stale g_cache set_cache memb existsb g_pfx g_bs g_cur Nat.ltb Nat.leb] in *.
+  rewrite NC in NCr. rewrite NC.
+  destruct (run_events false (d_arch_pfx d) (demote (mkPfx [] pe pt))) as [pa [names_a|]] eqn:RA.
+  2:{ exfalso. apply (NCr SArch). reflexivity. }
+  destruct (d_verdict d) as [|[]] eqn:Vd; try discriminate; cbn [is_rej] in *.
+  all: cbn [andb orb] in *.
+  all: match goal with |- context [run_events false ?ev ?p0] =>
+         destruct (run_events false ev p0) as [pc [l|]] eqn:RC end; cbn [orb] in *.
+  all: try (exfalso; apply (NCr SPrep); reflexivity).
+  all: unfold ir_stage; rewrite Vd; cbn [g_sm set_cur set_pfx]; rewrite andb_false_r; reflexivity.
+Qed.
+
+Theorem coded_harmless_preserves_clean d g :
+  clean g -> harmless d = true -> (forall s, outcome_of compile d g <> Crashed s) ->
+  clean (fst (compile d g)) /\ outcome_of compile d g = outcome_of compile_fixed d init.
+Proof.
+  intros C Hh NCr. unfold outcome_of. rewrite (compile_coded_clean_harmless d g C Hh NCr).
+  apply fixed_step. assumption.
+Qed.
